@@ -63,12 +63,18 @@ def gen_case(rng, ctype, signed):
         if nl < 1:
             nl = lines[-1] + abs(d)
         lines.append(nl)
-    # a mapping: consecutive entries carry different lines (an entry that repeats the line in effect is not a line start)
+    # usually consecutive entries carry different lines; every fourth mapping keeps entries that repeat the line in effect
+    # (no line start there, but the encoder must still account for their offset gap)
+    keep_repeats = rng.random() < 0.25
     o2, l2 = [offs[0]], [lines[0]]
     for o, l in zip(offs[1:], lines[1:]):
-        if l != l2[-1]:
+        if l != l2[-1] or keep_repeats:
             o2.append(o)
             l2.append(l)
+    # every fifth mapping starts above offset 0: the code before it is on co_firstlineno
+    if rng.random() < 0.2:
+        sh = rng.choice([2, 4, 6, 100, 254, 256, 300])
+        o2 = [o + sh for o in o2]
     # co_firstlineno need not be the line of the first instruction (a `def` line followed by its body; decorators): the
     # first table entry then carries a line step at offset gap 0.  Below it only where the format has signed steps.
     fl = l2[0]
@@ -131,7 +137,14 @@ def run(tier, scratch, t0, replay=None):
         res.evaluations += 1
         cls = gap_class(c["offsets"], c["lines"])
         want_pairs = list(zip(c["offsets"], c["lines"]))
-        queries = sorted(set(c["offsets"] + [o + 2 for o in c["offsets"]] + [c["code_len"] - 2]))
+        if c["offsets"][0] > 0:
+            want_pairs = [(0, c["firstlineno"])] + want_pairs
+            cls += ",first-offset>0"
+            res.count("c19_mapping_starts_above_offset_0")
+        if any(a == b for a, b in zip(c["lines"], c["lines"][1:])):
+            cls += ",repeated-line"
+            res.count("c19_mapping_with_repeated_line_entries")
+        queries = sorted(set([0] + c["offsets"] + [o + 2 for o in c["offsets"]] + [c["code_len"] - 2]))
         want = step(want_pairs, queries)
         det = {"offsets": c["offsets"], "lines": c["lines"], "form": c["form"], "firstlineno": c["firstlineno"]}
         if c["firstlineno"] != c["lines"][0]:
